@@ -106,6 +106,37 @@ def rule_addr_guard(fx, col):
                     if t['k'] == 'call' and d in set(U.term_locals_used(t)):
                         bad.append(b.loc(bb))
                 col.add('ADDR-GUARD', '%s|address only compared' % fn, not bad, 'uses of the published address other than the comparison: %s' % bad, s.loc)
+        # (3b) HELP-UNCONDITIONAL: once the tag says "reader in its intent window" and the address matches, the hand-over is
+        #      attempted; no further condition may let the helper walk away (the reader would then confirm a candidate that
+        #      nobody protects)
+        for c in cas:
+            lp = [(h, bl) for h, bl, tl in loops if c.bb in bl]
+            blocks = lp[0][1] if lp else set(range(b.n))
+            extra = []
+            for (sbb, succ, val) in U.dominating_branches(b, c.bb, unwind=False):
+                if sbb not in blocks:
+                    continue
+                others = [tb for tb in b.succs(False)[sbb] if tb != succ]
+                if others and all(not any(b.term(x)['k'] == 'return' or x == c.bb for x in b.reach_from(o, unwind=False, avoid={succ}))
+                                  for o in others):
+                    continue  # an assertion: the other edge only panics (PANIC-INV discharges those)
+                for f in U.edge_facts(b, sbb, succ):
+                    if f[0] == 'bool' and f[1]:
+                        d = f[1]
+                        if d[0] == 'rv' and d[3]['k'] == 'binop' and d[3]['op'] in ('Eq', 'Ne'):
+                            src = b.origins(d[3]['l']) | b.origins(d[3]['r'])
+                            if any(o[0] == 'call' and o[1] in [s.bb for s in addr_loads] for o in src):
+                                continue  # the address guard
+                            if any(o[0] == 'call' and U.callee_name(b.term(o[1])) == 'load' and U.is_atomic_callee(b.term(o[1])['callee'])
+                                   and U.Site(b, o[1], b.term(o[1])).cls == 'control' for o in src):
+                                continue  # "control changed meanwhile" re-check
+                        if d[0] == 'call' and U.callee_name(d[2]) == 'eq' and 'ptr' in d[2]['callee'].get('path', ''):
+                            continue  # debug_assert!(!ptr::eq(self, who))
+                        extra.append('%s at %s' % (U.describe_cond(b, d), b.loc(sbb)))
+                    elif f[0] == 'variant':
+                        extra.append('variant test at %s' % b.loc(sbb))
+            col.add('ADDR-GUARD', '%s|help is unconditional once the address matches' % fn, not extra,
+                    'extra conditions on the way to the hand-over: %s' % extra if extra else 'inside the GEN_TAG arm only the address comparison guards the hand-over', c.loc)
         # (4) the replacement is produced by the caller-supplied closure only (the helper loads nothing itself)
         cell_ops = [s for s in sites if s.cls == 'cell']
         col.add('ADDR-GUARD', '%s|no direct cell access' % fn, not cell_ops, 'the helper never touches a cell itself: %s' % [s.loc for s in cell_ops])
